@@ -9,6 +9,9 @@
 #ifndef C20_HAS_BF_MEMPTR_RV
     #define C20_HAS_BF_MEMPTR_RV 1 // likewise: bind_front(pointer to member, object) called through an rvalue wrapper compiles
 #endif
+#ifndef C20_HAS_TCAT0
+    #define C20_HAS_TCAT0 1 // likewise: etl::tuple_cat() with no argument compiles
+#endif
 #ifndef C20_HAS_MFT_NARROW
     #define C20_HAS_MFT_NARROW 1 // likewise: make_from_tuple<T>(t) compiles when T's parameters narrow the elements
 #endif
@@ -1133,8 +1136,20 @@ inline std::string tcat_line(Line const& l)
     auto const& k  = l.list("k");
     long long n    = 0;
     for (auto x : ts) { if (x < 1 || x > 2) return "bad-op"; n += x; }
-    if (ts.empty() || ts.size() > 3 || n != (long long)v.size() || k.size() != v.size()) return "bad-op";
+    if (ts.size() > 3 || n != (long long)v.size() || k.size() != v.size()) return "bad-op";
     long long q = l.i("q");
+    if (ts.empty()) {
+        // tuple_cat() with no argument: the empty tuple
+        if constexpr (G == 0) {
+            if constexpr (L::is_etl && !C20_HAS_TCAT0) return "nc";
+            else {
+                auto c = L::tuple_cat();
+                static_assert(std::is_same_v<decltype(c), typename L::template tuple<>>);
+                (void)c;
+                return "r=[] a=[] cp=0";
+            }
+        } else return "bad-op";
+    }
     int iv[6];
     for (std::size_t i = 0; i < v.size(); ++i) iv[i] = static_cast<int>(v[i]);
     bool uni = true;
@@ -1675,6 +1690,13 @@ inline std::string typeq_line(Line const& l)
                                   typename L::template tuple<int, long, Mo>>);
     if (q == "tuple_cat_keeps_ref")
         return yes(std::is_same_v<decltype(L::tuple_cat(std::declval<typename L::template tuple<int&>>())), typename L::template tuple<int&>>);
+    if (q == "tuple_cat_no_args") {
+        if constexpr (L::is_etl && !C20_HAS_TCAT0) return "nc";
+        else return yes(std::is_same_v<decltype(L::tuple_cat()), typename L::template tuple<>>);
+    }
+    if (q == "tuple_cat_pair_elements")
+        return yes(std::is_same_v<decltype(L::tuple_cat(std::declval<typename L::template pair<int&, Mo>>(), std::declval<typename L::template tuple<int const> const&>())),
+                                  typename L::template tuple<int&, Mo, int const>>);
     if (q == "tuple_cat_keeps_nested")
         return yes(std::is_same_v<decltype(L::tuple_cat(std::declval<typename L::template tuple<typename L::template tuple<int>>>())),
                                   typename L::template tuple<typename L::template tuple<int>>>);
